@@ -52,6 +52,7 @@ func killPoints(setup func(string), base, docfile, noclobber string) []killPoint
 	cmd := exec.Command("strace", "-f", "-qq", "-o", tf,
 		"-e", "trace=openat,write,fsync,fdatasync,fchmod,close,rename,renameat,renameat2,ftruncate,unlink,unlinkat",
 		storechildPath(), "store", d, docfile, noclobber)
+	cmd.Env = childEnv()
 	if err := cmd.Run(); err != nil {
 		return nil
 	}
@@ -80,11 +81,31 @@ func killPoints(setup func(string), base, docfile, noclobber string) []killPoint
 	return pts
 }
 
+// otherFS: a directory on another file system than the store, if the machine has one (/dev/shm): the
+// store child's TMPDIR points there, so that anything the store stages outside its own directory is seen
+// to cross a file-system boundary
+var otherFS string
+
+func setupOtherFS() {
+	d := fmt.Sprintf("/dev/shm/verif-c20-tmp-%d", os.Getpid())
+	if err := os.MkdirAll(d, 0o755); err == nil {
+		otherFS = d
+	}
+}
+
+func childEnv() []string {
+	if otherFS == "" {
+		return os.Environ()
+	}
+	return append(os.Environ(), "TMPDIR="+otherFS)
+}
+
 func killAt(kp killPoint, d, docfile, noclobber string) {
 	cmd := exec.Command("strace", "-f", "-qq", "-o", "/dev/null",
 		"-e", "trace="+kp.syscall,
 		"-e", fmt.Sprintf("inject=%s:signal=KILL:when=%d", kp.syscall, kp.nth),
 		storechildPath(), "store", d, docfile, noclobber)
+	cmd.Env = childEnv()
 	_ = cmd.Run()
 }
 
@@ -95,6 +116,7 @@ func traceStore(sdir, docfile, final, noclobber string) ([]int, []string, error)
 	cmd := exec.Command("strace", "-f", "-qq", "-o", tf.Name(),
 		"-e", "trace=openat,write,fsync,fdatasync,fchmod,close,rename,renameat,renameat2,ftruncate",
 		storechildPath(), "store", sdir, docfile, noclobber)
+	cmd.Env = childEnv()
 	if out, err := cmd.CombinedOutput(); err != nil {
 		return nil, nil, fmt.Errorf("strace: %v: %s", err, out)
 	}
@@ -251,6 +273,11 @@ func runC20(seed int64, n int, dir string, tier string) *Report {
 	rep := NewReport("C20", seed)
 	rep.Rule = "per round (n rounds; first-time store or overwrite, random small documents): (A) one real Store run under strace, its file-system calls on the store directory compared with the model's store_ops; (B) every post-crash directory listing of the crash model (call boundaries, torn writes, un-synced prefixes) enumerated independently in Go, compared as a set with the Coq crash_states, materialised on disk and read back with the real Retrieve in a fresh process; (C) the real store process killed (strace fault injection, SIGKILL) at the k-th file-system call for every k, then Retrieve in a fresh process; the same with a 3 kB document followed by a complete store of a short one and a Retrieve; non-trivial = overwrite rounds; distinct by hash"
 	cf := &CasesFile{Imports: "Model.Base Model.Store Corr.CheckC20", Type: "case20", Eval: "mismatches"}
+	setupOtherFS()
+	if otherFS != "" {
+		defer os.RemoveAll(otherFS)
+		rep.Notes = append(rep.Notes, "the store child's TMPDIR is on another file system ("+otherFS+")")
+	}
 	if _, err := exec.LookPath("strace"); err != nil {
 		rep.Notes = append(rep.Notes, "strace not available: parts (A) and (C) skipped")
 	}
